@@ -21,10 +21,12 @@ var c07Str = reg("C07", "c07-str", checkC07)
 var uniRunes = []rune("ab12 \t\n\r é€𝄞́日 -.x")
 
 func genUni(t *rapid.T, label string) string {
-	switch rapid.IntRange(0, 3).Draw(t, label+"Kind") {
-	case 0:
+	switch rapid.IntRange(0, 8).Draw(t, label+"Kind") {
+	case 8:
+		return longString(t, label)
+	case 0, 4:
 		return strPool[rapid.IntRange(0, len(strPool)-1).Draw(t, label+"Idx")]
-	case 1:
+	case 1, 5:
 		return rapid.String().Draw(t, label)
 	}
 	return rapid.StringOfN(rapid.SampledFrom(uniRunes), 0, 10, -1).Draw(t, label)
